@@ -4,8 +4,9 @@
 //! Input line: `<op> <src> <dst> <args...>`; formats are coded
 //!   0 i8, 1 i16, 2 I24, 3 i32, 4 I48, 5 i64, 6 u8, 7 u16, 8 U24, 9 u32, 10 U48, 11 u64
 //! ops:
-//!   vals  v1 v2 ...        one observation per value: `0 r` (to_sample and from_sample both returned r),
-//!                          `7 r1 r2` (they differ), `8 k` (panic of kind k),
+//!   vals  v1 v2 ...        one observation per value: `0 r` (EVERY entry point returned r: Sample::to_sample, Sample::from_sample,
+//!                          ToSample::to_sample_, FromSample::from_sample_, the same two through a `Duplex<_>` bound only, and the
+//!                          module function conv::<src>::to_<dst>), `7 r1 r2` (two of them differ), `8 k` (panic of kind k),
 //!                          `6 r` (returned r, but the target is I24/U24/I48/U48 and `T::new(r)` is not `Some(r)`:
 //!                          not a valid value of the target format by the crate's own validity check)
 //!   ovals v1 v2 ...        the given values against the i128 oracle (same output as sweep)
@@ -19,10 +20,14 @@
 //!   i2f <src> <32|64> v...     `0 bits` of to_sample::<f32|f64>()
 //!   f2i <32|64> <dst> bits...  `0 r` of f32|f64::to_sample::<dst>()
 //!   f2f <32|64> 0 bits...      `0 bits` of f32 -> f64 (32) / f64 -> f32 (64)
+//! src = dst is the blanket identity impl `impl<S> FromSample<S> for S` (no module function exists there).
 //! 24/48-bit sources are built with `new_unchecked` (so out-of-range representation values can be fed too),
 //! results are read with `.inner()`.
-use dasp_sample::{FromSample, Sample, ToSample, I24, I48, U24, U48};
+use dasp_sample::{Duplex, FromSample, Sample, ToSample, I24, I48, U24, U48};
 use dasp_verif_harness::*;
+#[path = "../direct.rs"]
+mod direct;
+use direct::Direct;
 
 trait Fmt: Copy + Sample {
     const BITS: u32;
@@ -83,16 +88,51 @@ fn spec<S: Fmt, D: Fmt>(v: i128) -> i128 {
     scaled + if D::SIGNED { 0 } else { 1i128 << (D::BITS - 1) }
 }
 
+/// what the sweeps compare: Sample::to_sample, and the first of Sample::from_sample / conv::<src>::to_<dst> that differs
+/// from it (else from_sample's)
 #[inline]
 fn both<S, D>(v: i128) -> (i128, i128, bool)
 where
-    S: Fmt + ToSample<D>,
+    S: Fmt + ToSample<D> + Direct<D>,
     D: Fmt + FromSample<S>,
 {
     let s = S::mk(v);
     let a: D = s.to_sample::<D>();
     let b: D = D::from_sample(s);
-    (a.val(), b.val(), a.valid() && b.valid())
+    let c: D = s.direct();
+    (a.val(), if b.val() != a.val() { b.val() } else { c.val() }, a.valid() && b.valid() && c.valid())
+}
+
+/// conversions reached with nothing but a `Duplex<_>` bound in scope (the marker trait generic code is written against)
+#[inline]
+fn via_duplex_to<A: Duplex<B>, B>(a: A) -> B { a.to_sample_() }
+#[inline]
+fn via_duplex_from<A: Duplex<B>, B>(b: B) -> A { A::from_sample_(b) }
+
+/// every public entry point of one conversion: (Sample::to_sample, first differing other one or the same, all valid)
+#[inline]
+fn every<S, D>(v: i128) -> (i128, i128, bool)
+where
+    S: Fmt + ToSample<D> + Direct<D> + Duplex<D>,
+    D: Fmt + FromSample<S> + Duplex<S>,
+{
+    let s = S::mk(v);
+    let a: D = s.to_sample::<D>();
+    let rest: [D; 6] = [
+        D::from_sample(s),
+        ToSample::<D>::to_sample_(s),
+        <D as FromSample<S>>::from_sample_(s),
+        via_duplex_to::<S, D>(s),
+        via_duplex_from::<D, S>(s),
+        s.direct(),
+    ];
+    let mut other = a.val();
+    let mut ok = a.valid();
+    for r in rest.iter() {
+        ok = ok && r.valid();
+        if other == a.val() && r.val() != a.val() { other = r.val(); }
+    }
+    (a.val(), other, ok)
 }
 
 const DIG_P: u128 = (1u128 << 61) - 1;
@@ -110,13 +150,13 @@ impl Xs {
     }
 }
 
-/// tag, got, (to_sample, from_sample) of one value with the panic caught
+/// tag, got, (to_sample, another entry point) of one value with the panic caught
 fn one<S, D>(v: i128) -> (i64, i128, i128)
 where
-    S: Fmt + ToSample<D>,
-    D: Fmt + FromSample<S>,
+    S: Fmt + ToSample<D> + Direct<D> + Duplex<D>,
+    D: Fmt + FromSample<S> + Duplex<S>,
 {
-    match catch(|| both::<S, D>(v)) {
+    match catch(|| every::<S, D>(v)) {
         Ok((a, b, ok)) if a == b => (if ok { 0 } else { 6 }, a, b),
         Ok((a, b, _)) => (7, a, b),
         Err(k) => (8, k as i128, k as i128),
@@ -125,8 +165,8 @@ where
 
 fn run<S, D>(op: &str, a: &[i128]) -> String
 where
-    S: Fmt + ToSample<D>,
-    D: Fmt + FromSample<S>,
+    S: Fmt + ToSample<D> + Direct<D> + Duplex<D>,
+    D: Fmt + FromSample<S> + Duplex<S>,
 {
     match op {
         "vals" => a
